@@ -328,6 +328,17 @@ MIN1 = {("ASTSelectClause", "columns"), ("ASTFromClause", "tables"), ("ASTCaseCo
         ("ASTForeignKeyExpression", "master_columns"), ("ASTUnionSelectStatement", "elements")}
 
 
+def _paren_start(e):
+    """does the printed expression start with a bracket (any dialect that prints it)?"""
+    from metasequoia_sql import SQLType
+    for st in (SQLType.HIVE, SQLType.MYSQL):
+        try:
+            return e.source(st).startswith("(")
+        except Exception:
+            continue
+    return True
+
+
 def _is_expr(N, v):
     return isinstance(v, N.ASTExpressionBase) and not isinstance(v, (N.ASTSubValueExpression,))
 
@@ -372,11 +383,11 @@ def variants(N, t):
                     for i in range(len(v)): yield put(v[:i] + v[i + 1:])
             for i, x in enumerate(v):
                 if isinstance(x, tuple):
-                    if len(x) > 2 or (len(x) == 2 and not any(y.source().startswith("(") for y in x)):
+                    if len(x) > 2 or (len(x) == 2 and not any(_paren_start(y) for y in x)):
                         for j in range(len(x)): yield put(v[:i] + (x[:j] + x[j + 1:],) + v[i + 1:])
                     for j, y in enumerate(x):
                         for ny in _expr_variants(N, y, True):
-                            if len(x) > 1 or not ny.source().startswith("("): yield put(v[:i] + (x[:j] + (ny,) + x[j + 1:],) + v[i + 1:])
+                            if len(x) > 1 or not _paren_start(ny): yield put(v[:i] + (x[:j] + (ny,) + x[j + 1:],) + v[i + 1:])
                 elif _is_expr(N, x):
                     for nx in _expr_variants(N, x, key in COMPUTE): yield put(v[:i] + (nx,) + v[i + 1:])
                 elif dataclasses.is_dataclass(x):
